@@ -56,7 +56,7 @@ out.append('* `C08-a` (round 1): removed the activation of the seats the button 
 out.append('* `C07-h1` (round 8): a process-wide cache of five-card evaluations keyed without the ranking table. Every replica of C07 lives in the same process and is polluted alike, so resuming shows no difference; what is broken is the reported evaluation, and **C10 catches the change** (`incoherent`).')
 out.append('* `C10-h2`: showdown scores derived from the *position* in a sorted list, so tied hands no longer tie. The reported hands are all correct (C10\'s subject); the payout is wrong, and **C02 catches the change** (`engine/amount/exact`).')
 out.append('* `C11-h2`: identical in effect to `C12-h2` (an all-in raise that does not update the minimum raise): only an *extra* raise offer results, which C11 does not forbid; carrying the undersized raise out is a C12 violation and **C12 catches the change**.')
-out.append('* `C13-h2`: only shows in a game with a small blind but neither big blind nor dealer blind; such a structure is not generated (C13\'s configurations have a big blind, or are button-blind / ante-only games).')
+out.append('* `C06-i1` (round 9): the pots are no longer rebuilt before the settlement, so a hand restored from JSON right before its last `Next()` closes with a result in which no pot has a winner and nobody\'s chips change. The hand does reach its closed state *with* a result and accepts nothing afterwards (C06\'s clauses); that the result pays nobody is C02\'s subject and a difference between the restored and the live game is C07\'s, and **C02 and C07 catch the change** (`engine/amount/exact`, `backend-diverges/next`).')
 out.append('* `C18-h1`: only shows when a seat manager is restored (`ApplyStates`) from a snapshot of a *smaller* table than the one it was built for. The pinned code does not support that either (its `Join(any)` then hands out the stale seats beyond the new size), nothing in the repository does it, and the histories restore into a manager of the same size.')
 out.append('* `C19-h1`: opens a table while the status is Pending *after the competition had already been started once and was put back*. C19 forbids tables \"before the competition has started\"; a competition that goes back to Pending is not generated.')
 out.append('* `C19-h2`: needs a `requestTableFn` callback that fails (see `C19-f1`).')
